@@ -45,7 +45,7 @@ Record fixes := { fx_import : bool;   (* F6: the import branch of updateUnitsMap
 Definition unfixed := {| fx_import := false; fx_std := false |}.
 Definition all_fixed := {| fx_import := true; fx_std := true |}.
 (** The state of /repo this model is compared with in the correspondence run. *)
-Definition current_fixes := unfixed.
+Definition current_fixes := all_fixed.
 
 Fixpoint assoc {A} (k : string) (l : list (string * A)) : option A :=
   match l with
